@@ -7,6 +7,7 @@ CONSTANTS
   KindSet = {"req", "any", "via", "viaimpl"}
   AllowSeed = TRUE
   MaxLvl = 1
+  MidEval = TRUE
 INVARIANT ResolvesToLatest
 INVARIANT EarlierNotExecuted
 INVARIANT OtherContextsSilent
